@@ -14,6 +14,7 @@ SPEC = {
     ],
     "trusted_base": ["Gen/ModCaps.v: MAX_* constants of pe/dotnet/dex parsers, resource-walk level cut, absence of a visited set, depth-guard shape - regenerated from lib/src/modules/{pe,dotnet,dex}/parser.rs",
                      "hooks (cfg yara_x_verif, add-only): lib/src/modules/verif_c11.rs (uleb128, sleb128), verif_c11_dotnet.rs (var_uint, var_sint, coded_index, table_index), verif_c11_lnk.rs (length_data); the other cores are compared through the modules' public output",
+                     "harness/src/c11/fields.rs: minimal independent readers that only LOCATE fields (a field they miss is still reached by the exhaustive sweep when the sample is small)",
                      "checks/C11.py: unzips and Intel-HEX-decodes the repository's module test samples into .cache/c11-samples"],
 }
 
@@ -149,8 +150,9 @@ MANIFEST = {
                    "cap, depth <= limit, PE resource walk <= min(cubic, MAX_PE_RESOURCE_DIR_ENTRIES + 1) entries, Mach-O export trie walk <= one "
                    "expansion per distinct offset (visited-set key extracted from the source). Everything else the property says (no panic, stack, "
                    "time, memory, determinism of the real modules on any bytes) is supported by tests in resource-limited child processes over "
-                   "samples, truncations, field mutations, graph rewiring, splices and magic+random inputs; every core is compared with the real "
-                   "function (hook or public output)."),
+                   "samples, truncations, field mutations, graph rewiring, splices and magic+random inputs, by boundary sweeps of every length / size / "
+                   "count / offset / index field that independent minimal readers of the eleven formats locate (structured) and of every offset of the small "
+                   "samples (exhaustive), and by a time bound on every repository sample as it is; every core is compared with the real function (hook or public output)."),
     "level_note": ("Not modelled: nom parsers, ASN.1, authenticode, protobuf, hashing; a theorem cannot exhibit stack overflow or allocation growth. "
                    "Repaired after this check found them (c84671ba, 37a1e029): quartic / cubic walk of self-referential PE resource directories. "
                    "Quadratic memory, repaired (daf5ea9e, 07806781; patches fixes/C11-1, C11-2): ELF section/symbol names, Mach-O symtab and "
